@@ -125,7 +125,7 @@ func runAttempt(s *gobinlog.Streamer, m *simMaster, h *hist, mapper *tblMapper, 
 		if !ok {
 			return []action{{kind: "err", code: 1236, msg: "Client requested master to start replication from impossible position"}}
 		}
-		packets := splitPackets(f["packets"])
+		packets := withQueryErrors(h, splitPackets(f["packets"]))
 		atomic.StoreInt32(&sentTotal, int32(len(packets)))
 		if o.script != nil {
 			return o.script(packets)
